@@ -12,103 +12,85 @@ Definition show_fres (r : fres) : string :=
   end.
 Definition check (rs : list rune) : string := digest (show_fres (format_res rs)).
 Definition full (rs : list rune) : string := show_fres (format_res rs).
-Eval vm_compute in ("<<<M317>>>" ++ check (runes_of_ascii "MetaData Logon
-    {
-    char[]u8x , matchKey pack,
-u8 int ``, char[ 007
-    ]
-msg_type ,
-BodyLength o	,string_ crc  `a\`, } options	{
-    //x
-    trueish = int16 Packet
-    = char MetaDataX=
-char[
-//
-// trailing space 
-255 ] // a // b
-;}	root
-    //
-    packet a1 // packet A { u8 x, }
-{ } root packet // c
-MetaDataX{
-@lengthOf(_x)
-repeat
-Logon{// " ++ [128512]%N ++ runes_of_ascii " emoji
-o
-a1 , uint64
-    u128 ,  } ,zchar[007] chars
-    `line1
-line2` ,	repeat Header u128`doc`, // " ++ [128512]%N ++ runes_of_ascii " emoji
-@calculatedFrom(""1"")int
-trueish
-, char[0123456789
-    ]
-uint8x,
-i8 int	@lengthOf( msg_type )`line1
-line2`
-,
-    //x
-    @rightPad (
-) repeat f64 Z9_, metadata{ falsey @calculatedFrom(
-""abc""
-) , }, options1 @calculatedFrom( ""\n"" ) ,@calculatedFrom(	""\n"" )  match metadata
-    as Header {[
-    """" ,  ""1"" ] :	Foo //
-, [  ""\n""
-, 10
-,
-// " ++ [27880; 37322]%N ++ runes_of_ascii "
-// c
-""{,}"" ]
-: Logon
-,
-[
-    """"] :
-len
-, ""\n""  :// trailing space 
-msg_type , [ // c
-00 ]
-    : trueish , 10 : u8x, }
-    ,
-    } // " ++ [27880; 37322]%N ++ runes_of_ascii "
-root
-packet
-    BodyLength
-    { char[42
-] body  @calculatedFrom(
-    ""{,}"" ) `tab	here` // trailing space 
-,
-i32
-stringy  @calculatedFrom( """ ++ [28040; 24687]%N ++ runes_of_ascii """ ),  @tag(  0123456789	)
-@rightPad ( )@tag( 00 )  i16 a1 @lengthOf( pack// a // b
-) ,
-    @tag( 10
-)
-@leftPad ('\x00' ) // `tick` ""quote"" 'q'
-@calculatedFrom( ""a\""b"" ) repeat char[] // c
-stringy `
-`	, chars `say ""hi""`,
-@lengthOf(  a1 ) @leftPad( '0'  )
-    match Z9_
-as Header { 00
-    //	t
-    : As ,
-} // " ++ [27880; 37322]%N ++ runes_of_ascii "
-, o @calculatedFrom( """ ++ [128512]%N ++ runes_of_ascii """
-    )
-, @leftPad //	t
-(	)As// trailing space 
-@calculatedFrom( ""// no comment"") ,
-match x_y_z  as
-    BodyLength {
-""x y"" // `tick` ""quote"" 'q'
-:BodyLength
-, """ ++ [28040; 24687]%N ++ runes_of_ascii """  : packetx  , 0 :
-    Header ,
-    ""x y"" : matchKey
-    //	t
-    ,}, } // trailing space ")).
-Eval vm_compute in ("<<<M1452>>>" ++ check (runes_of_ascii "options
+Eval vm_compute in ("<<<M1541>>>" ++ check (runes_of_ascii "options {
+    MetaDataX = true
+}
+
+root packet u8x {
+    repeat uint16 u8x `" ++ [28040; 24687; 31867; 22411]%N ++ runes_of_ascii "`,
+    @tag(42)
+    char[7] trueish @lengthOf(Pad),
+    tag @lengthOf(A) `say ""hi""`,
+    float rootA,// " ++ [27880; 37322]%N ++ runes_of_ascii "
+    Foo,
+    repeat uint32 calculatedFrom,
+}
+
+root packet u128 {
+    repeat Packet metadata,
+    repeat zchar[0123456789] len `u8 x,`,
+    f32 BodyLength @lengthOf(Z9_) `it's`,
+    match crc as Packet {
+        0 : i64_,
+        [255] : rootA,
+        [""a	b"", ""\" ++ [233]%N ++ runes_of_ascii """, ""\" ++ [233]%N ++ runes_of_ascii """, 0, 4294967296] : i8i8,
+    },
+    @tag(1)
+    @calculatedFrom(""\" ++ [233]%N ++ runes_of_ascii """)
+    string f32a @calculatedFrom(""abc""),
+    repeat As {
+        matchKey {
+            crc @calculatedFrom(""// no comment""),
+        },
+        lengthOf `crlf
+                line`,
+        // a // b
+        // a // b
+        T Pad `a\`,
+        repeat i8i8 charz,// a // b
+    },
+}
+
+packet packetx {
+    @lengthOf(Packet)
+    repeat uint8x `line1
+        line2`,
+    @tag(0123456789)
+    string BodyLength @calculatedFrom(""" ++ [28040; 24687]%N ++ runes_of_ascii """),// trailing space 
+    zchar[42] MetaDataX,
+    char A @lengthOf(tag) `two words`,
+    @tag(10)
+    @calculatedFrom(""" ++ [28040; 24687]%N ++ runes_of_ascii """)
+    @calculatedFrom(""x y"")
+    char[7] repeatCount @calculatedFrom(""// no comment""),
+    @calculatedFrom(""it's"")
+    char[65535] packetx `// not a comment`,
+    @leftPad(' ')
+    match tag as packetx {
+        00 : int,
+    },
+    @tag(7)
+    @lengthOf(float)
+    @tag(0123456789)
+    Z9_,
+    @tag(00)
+    tag {
+        uint16 MetaDataX,
+        u tag `tab	here`,
+        float64 Packet @calculatedFrom(""{,}""),
+        x_y_z u128,
+    },
+    char[] msg_type @lengthOf(calculatedFrom) `line1
+        line2`,
+}
+
+MetaData float {
+    uint32 crc,
+    charz msg_type,
+    u128 crc,
+    string stringy `" ++ [233]%N ++ runes_of_ascii "`,
+}")).
+Eval vm_compute in ("<<<M1828>>>" ++ check (runes_of_ascii "options
     {StringPrefixLenType
 	= u16	;  ArrayPrefixLenType	= u16
 ;
@@ -290,94 +272,104 @@ match crc as chars
 :
 As
     } , i16 msg_type , }")).
-Eval vm_compute in ("<<<M1409>>>" ++ check (runes_of_ascii "// top
-    options 
-  // c0
-{ 	 // c1
-	uint8x 	 // c2a
-	// c2b
-	=
-    007  // c4a
-    // c4b
-; lengthOf
-    // c6
-  	=
-i8
-    ; 	 // c9a
-    // c9b
-
-} packet
-    i64_ 
-    // c12
-
-	{	// c13
-	  @calculatedFrom(	// c14
-	  ""1""
-	// c15
-) 	 // c16
-	@tag( // c17
-	3 
-) 
-// c19
-@lengthOf( 
-
+Eval vm_compute in ("<<<M1309>>>" ++ check (runes_of_ascii "// top
+packet // c0a
+  // c0b
+A { // c2
+u8 // c3a
+  // c3b
+a , // c5
+} // c6a
+  // c6b
+packet // c7a
+  // c7b
+B {
+    // c9
+u16 b // c11
+, } // c13a
+  // c13b
+packet // c14
+C
+    // c15
+{
+    // c16
+u32
+    // c17
+c // c18
+, // c19a
+  // c19b
+}
     // c20
-  rootA
-)	// c22
-    repeat  // c23
-    int8 // c24a
-	// c24b
-    	Packet  // c25a
-	// c25b
-  `u8 x,` 	 // c26
-
-,// c27
-  	} // c28a
-// c28b
-	root
-	    // c29
-  packet 	 // c30a
-
-  // c30b
-stringy
-
-// c31
-	  {	// c32a
-    // c32b
-@rightPad
-
-( ' '// c35
-		)// c36
-
-repeat	// c37a
-  // c37b
-	char[  // c38
-      10// c39
-]
-    repeatCount // c41a
-    	// c41b
-  ,// c42
-
-  @tag( // c43a
-    	// c43b
-  	255 
-      // c44
-	  ) // c45
-float64
+root packet // c22a
+  // c22b
+M // c23
+{ u16 Kc
+    // c26
+,
+    // c27
+u16 // c28a
+  // c28b
+Kb , // c30
+u16 Ka
+    // c32
+, match // c34a
+  // c34b
+Kc // c35
+as X
+    // c37
+{
+    // c38
+9 // c39
+:
+    // c40
+A
+    // c41
+, 10 :
+    // c44
+B
+    // c45
+,
     // c46
-	  msg_type 
-  // c47
-@calculatedFrom( ""packet"" 
-
+} , match
     // c49
-    )// c50a
-	// c50b
-, // c51a
-    // c51b
-
-  }	// c52
- 
-")).
+Kb // c50
+as // c51a
+  // c51b
+Y // c52
+{ 2 // c54a
+  // c54b
+:
+    // c55
+C , // c57
+1 // c58
+: A , // c61a
+  // c61b
+} // c62
+, // c63a
+  // c63b
+match
+    // c64
+Ka as // c66
+Z // c67
+{
+    // c68
+1 // c69a
+  // c69b
+: B // c71a
+  // c71b
+, // c72
+} // c73a
+  // c73b
+, // c74
+A // c75a
+  // c75b
+, // c76
+B
+    // c77
+,
+    // c78
+C , // c80
+} ")).
 Eval vm_compute in ("<<<M280>>>" ++ check (runes_of_ascii "packet	crc{@lengthOf( stringy// a // b
 ) @leftPad (
 '0'
@@ -417,493 +409,528 @@ Logon
 7] int	, repeat pack	trueish ,
     }
 ")).
-Eval vm_compute in ("<<<M1798>>>" ++ check (runes_of_ascii "
+Eval vm_compute in ("<<<M1516>>>" ++ check (runes_of_ascii "
 
-  root packet matchKey
+  packet
+crc  { @lengthOf(Header) 
+repeat
 
-{ match 
-Foo as 
-Z9_ 
-{ // c
-  [
-	""x y""
-    , ""1""  ,
-007, 7
-]:
+roots  
+  // @lengthOf(
+	  `a\`  ,@lengthOf(  tag  ) match
+	x 
+as
+	string_ {
+[
 
-    pack	,
+""a\\""
 
-""`tick`""
-    : 
-u128	,
-    ""a	b"" :  msg_type,
-	[  
-      //
-
-  //
-	  00
-,
-65535
+, ""packet""
 ]
+:Header	""// no comment"" 
+  /// triple
+: Logon,
 
-: a1
-,""it's""
+    7: 
+falsey	, 7
+
+:
+metadata [	7 ,
+	00
+]	:
+    // `tick` ""quote"" 'q'
+    repeatCount
+
+    3
 :
 
-Foo 
-,	// " ++ [128512]%N ++ runes_of_ascii " emoji
-	[	//x
+    u
 
-""""
+    , }
+, 
+        //	t
+	@lengthOf(
+    u128 
 
-]	: u , }
-	,}	packet calculatedFrom	// c
-  { msg_type 
-{ T @calculatedFrom(
-""\n"" )
-	, float64
-	i8i8 ,
-	As
+    //
 
-    `
-` ,u32 rootA 
-@lengthOf( 
-    // c
-	// `tick` ""quote"" 'q'
-    float )
-, }  ,	}
-packet
 // " ++ [27880; 37322]%N ++ runes_of_ascii "
-  	x_y_z
-{  @tag(	//x
-    	0
-) i64_
-	    // " ++ [27880; 37322]%N ++ runes_of_ascii "
-  	@lengthOf(  
-      //
-	MetaDataX
 
-),	}  packet A 
-{ @calculatedFrom( ""a\\"")
+  )
+@rightPad('\x00'// c
+		)  char[] 
+int,
+int16 Packet	@lengthOf(
+	string_
 
-@calculatedFrom( ""abc""	)_x
-
-    u	`say ""hi""` 
-,
-	} 
-options
-    // `tick` ""quote"" 'q'
-	{// trailing space 
-  	metadata
-	=""a\\""
-; // a // b
-}
-
-")).
-Eval vm_compute in ("<<<M6>>>" ++ check (runes_of_ascii "// `tick` ""quote"" 'q'
-packet As
-{ @rightPad ( '0' ) stringy
-@lengthOf( calculatedFrom),	@tag( 10	) string uint8x `
-` ,	match body // packet A { u8 x, }
-as uint8x {
-    ""it's"" :  rootA , [ 00 ] : leftPad
-    ,
-42 :	MetaDataX , ""a	b"" :  calculatedFrom
-    255
-:trueish	} , repeat	i64 Logon `tab	here` , } options {crc
-= '\x00' ;}
-packet x { @calculatedFrom(
-""a\\""
     )
-@tag( 42
-) @leftPad	( '0' // c
-) match o	as /// triple
-x_y_z {// packet A { u8 x, }
-[ """ ++ [128512]%N ++ runes_of_ascii """// trailing space 
-, ""x y"" , // c
-0123456789 ,""CRC32"" ,
-//	t
-// packet A { u8 x, }
-""it's""
-, 007
-, 3, 007 // @lengthOf(
-] :	Packet // c
-[	255, ""x y""
-    ] :x_y_z
-    ,
-} , }
+,  trueish
+{repeat
+	crc  {  zchar calculatedFrom, },
+	}
+	, 
+
+// @lengthOf(
+	//x
+
+@rightPad (
+)
+
+repeat
+	_x	pack// " ++ [27880; 37322]%N ++ runes_of_ascii "
+	  , @lengthOf( 
+    // c
 // trailing space 
-")).
-Eval vm_compute in ("<<<M1554>>>" ++ check (runes_of_ascii "//x
-packet x {
-    @lengthOf(string_)
-    // `tick` ""quote"" 'q'
-    // trailing space 
-    msg_type {
-        int @lengthOf(chars) `" ++ [28040; 24687; 31867; 22411]%N ++ runes_of_ascii "`,
-        int `a\`,
-    },
-    uint32 chars @calculatedFrom(""`tick`"") `
-    `,
-    @lengthOf(packetx)
-    match metadata as x_y_z {
-        65535 : x,
-        007 : u,
-        [7, ""// no comment"", """ ++ [28040; 24687]%N ++ runes_of_ascii """] : x,
-        ""a\\"" : MetaDataX,
-        0123456789 : lengthOf,
-        10 : float,
-    },
-    u16 Logon @calculatedFrom(""x y"") `tab	here`,
-    @lengthOf(Foo)
-    zchar,
-}
+  chars )repeat  string_ { repeat
 
-packet tag {
-}
-
-root packet x_y_z {
-}
-
-MetaData int {
-    string A `" ++ [233]%N ++ runes_of_ascii "`,
-}")).
-Eval vm_compute in ("<<<M1300>>>" ++ check (runes_of_ascii "// top
-packet // c0
-A { u8
-    // c3
-a , // c5a
-  // c5b
-} // c6
-packet
-    // c7
-B { // c9a
-  // c9b
-u16 // c10a
-  // c10b
-b // c11
-, // c12
-}
-    // c13
-root packet // c15a
-  // c15b
-P { // c17
-u8 // c18
-K // c19
-, // c20
-match // c21
-K // c22
-as // c23
-M // c24a
-  // c24b
+    uint8x
+`// not a comment`
+	,
+    } 
+, }")).
+Eval vm_compute in ("<<<M1238>>>" ++ check (runes_of_ascii "// top
+options
+    // c0
 {
+    // c1
+zchar
+    // c2
+=
+    // c3
+true
+    // c4
+;
+    // c5
+Pad
+    // c6
+=
+    // c7
+char[
+    // c8
+00
+    // c9
+]
+    // c10
+a1
+    // c11
+=
+    // c12
+uint32
+    // c13
+BodyLength
+    // c14
+=
+    // c15
+true
+    // c16
+;
+    // c17
+}
+    // c18
+root
+    // c19
+packet
+    // c20
+T
+    // c21
+{
+    // c22
+@lengthOf(
+    // c23
+repeatCount
+    // c24
+)
     // c25
-[ // c26
+@tag(
+    // c26
 1
     // c27
-,
+)
     // c28
-2 // c29a
-  // c29b
-] // c30a
-  // c30b
-: // c31a
-  // c31b
-A // c32a
-  // c32b
-, 3
+@calculatedFrom(
+    // c29
+""a	b""
+    // c30
+)
+    // c31
+string
+    // c32
+stringy
+    // c33
+@calculatedFrom(
     // c34
-: // c35
-B // c36a
-  // c36b
-, 7 // c38
-: // c39a
-  // c39b
-A // c40
-, // c41
-} ,
-    // c43
-}
-    // c44
-")).
-Eval vm_compute in ("<<<M1764>>>" ++ check (runes_of_ascii "// top
-options {
-    // c1
-    uint8x = 007;
-    lengthOf = i8;// c9a
-    // c9b
-}
-
-packet i64_ {
-    // c13
-    @calculatedFrom(""1"")
-    // c16
-    @tag(3)
-    // c19
-    @lengthOf(rootA)
-    // c22
-    repeat int8 Packet `u8 x,`,// c27
-}// c28a
-
-// c28b
-root packet stringy {
-    // c32a
-    // c32b
-    @rightPad(' ')
+""\n""
+    // c35
+)
     // c36
-    repeat char[10] repeatCount,// c42
-    @tag(255)
-    // c45
-    float64 msg_type @calculatedFrom(""packet""),// c51a
-    // c51b
-}// c52")).
-Eval vm_compute in ("<<<M14>>>" ++ check (runes_of_ascii "MetaData u128
-    {// a // b
-string zchar //x
-`two words` ,u16 packetx
-`a\` , char[ 1 ] Logon	, len crc, char[
-7]i8i8,char[]calculatedFrom,
-} // @lengthOf(
-MetaData u
-    { u// " ++ [128512]%N ++ runes_of_ascii " emoji
-u128
-, //	t
-}root packet metadata { }options	{ matchKey =
-    255
-;
-x_y_z
-= 007 crc=int16
-; zchar =// c
-char[42 ]
-; int
-= true ;
-} options  {
-Header = """ ++ [128512]%N ++ runes_of_ascii """
-;
-len
-    = ' ' ; matchKey= """" ;MetaDataX =' '
-; o
-    = '\x00' ; }
-/// triple
-")).
-Eval vm_compute in ("<<<M1669>>>" ++ check (runes_of_ascii "
-packet int
-
-{
-	T/// triple
-	{	repeat
-_x ,	}	,
-i64_
-_x
-	`
-`
-    ,  @calculatedFrom( 
-""x y""
-	) u32	A
-
-    ,
-match
-a1  as
-i8i8
-
-{	[
-
-    ""1"" 
-, 4294967296 
-]
-    : a1 , """"
-
-    : a1 
-,007:
-	a1
-    ,
-[
-    ""CRC32""
-
-    ]
-
-    :	Header }
+`u8 x,`
+    // c37
 ,
-
-    int64  As 
-,
-int8
-
-    a1
-	,//
-    char[]
-	float `tab	here` /// triple
-, repeat 
-zchar[ 1
-
-    ]u8x	,
-	}	/// triple
-")).
-Eval vm_compute in ("<<<M1234>>>" ++ check (runes_of_ascii "// top
-options // c0
-{ // c1
-f32a // c2
-= // c3
-0 // c4
-} // c5
-packet // c6
-trueish // c7
-{ // c8
-} // c9
-MetaData // c10
-_x // c11
-{ // c12
-char[ // c13
-0123456789 // c14
-] // c15
-zchar // c16
-, // c17
-string // c18
-crc // c19
-, // c20
-char[ // c21
-1 // c22
-] // c23
-options1 // c24
-, // c25
-uint8 // c26
-repeatCount // c27
-, // c28
-} // c29
-")).
-Eval vm_compute in ("<<<M1385>>>" ++ check (runes_of_ascii "options {
-    LittleEndian = true;
+    // c38
 }
-packet Logon {
-    u8 x,
+    // c39
+")).
+Eval vm_compute in ("<<<M1312>>>" ++ check (runes_of_ascii "// top
+options // c0a
+  // c0b
+{ // c1a
+  // c1b
+FixedStringPadChar = // c3
+'0' ; } packet
+    // c7
+Q // c8
+{ // c9a
+  // c9b
+zchar[ // c10a
+  // c10b
+4 // c11
+] // c12
+z , // c14
+@rightPad ( // c16
+'\x00' ) // c18a
+  // c18b
+char[ 3 // c20a
+  // c20b
+]
+    // c21
+n ,
+    // c23
+char[
+    // c24
+5
+    // c25
+] // c26
+d // c27
+, } // c29a
+  // c29b
+root
+    // c30
+packet R
+    // c32
+{ // c33
+Q , // c35a
+  // c35b
+zchar[ 8 // c37
+] // c38
+top , // c40a
+  // c40b
+repeat
+    // c41
+zchar[
+    // c42
+2
+    // c43
+] // c44a
+  // c44b
+zs
+    // c45
+, // c46a
+  // c46b
+} // c47
+")).
+Eval vm_compute in ("<<<M1364>>>" ++ check (runes_of_ascii "options {
+    StringPrefixLenType = u8;
+    ArrayPrefixLenType = u8;
+    FixedStringPadFromLeft = false;
+    FixedStringPadChar = ' ';
+}
+packet Ack {
+    char[] tag7,
+}
+packet Reject {
+    InSym61 {
+        repeat Ack,
+        zchar[4] f1,
+    },
 }
 packet Logout {
-    u16 reason,
+    char[4] clOrdID,
 }
-root packet Frame {
-    u64 Kind,
-    u64 Kind2,
-    match Kind as Body {
-        1 : Logon,
-        [2, 3, 4] : Logout,
-        100 : Logon,
+root packet Cancel {
+    @leftPad(' ') char[10] price,
+    u8 x,
+    u32 venue @lengthOf(Body),
+    match x as Body {
+        [92, 175] : Logout,
+        26 : Reject,
+        144 : Ack,
     },
-    match Kind2 as Trailer {
-        0 : Logout,
-    },
+    u16 count @calculatedFrom(""CRC32""),
 }
 ")).
-Eval vm_compute in ("<<<M222>>>" ++ check (runes_of_ascii "packet
-body// @lengthOf(
-{ @lengthOf(
-T
-    // " ++ [27880; 37322]%N ++ runes_of_ascii "
-    ) @lengthOf(
-int ) @leftPad ( '\x00')
-asx//x
-len
-,
-repeat	zchar[ 3] int `" ++ [28040; 24687; 31867; 22411]%N ++ runes_of_ascii "` ,@lengthOf(
-    // @lengthOf(
-    options1)match
-    x
-    as //x
-leftPad // @lengthOf(
+Eval vm_compute in ("<<<M193>>>" ++ check (runes_of_ascii "
+root packet lengthOf{
+    char[ 3 ] Pad ,	@rightPad
+    (  '0'
+)
+    crc `doc` ,i32 //x
+uint8x
+,	zchar { match Logon  as int { [ 0 , """ ++ [233]%N ++ runes_of_ascii "t" ++ [233]%N ++ runes_of_ascii """] :o , ""// no comment"" :len ,
+} , asx
 {
-7
-:
-x_y_z , 65535:  u128 , 42 : x ,} , //
-}")).
-Eval vm_compute in ("<<<M308>>>" ++ check (runes_of_ascii "options { pack// `tick` ""quote"" 'q'
-= 0123456789
+    //x
+    char[	10 ]
+u128 // a // b
+@lengthOf(  x_y_z)`say ""hi""`, }
+/// triple
+//
+, char[
+1 ] A, u// c
+chars
+    `` , }, repeat matchKey
+{ //x
+string trueish@calculatedFrom(
+    ""a	b""  )  , repeat
+    // packet A { u8 x, }
+    i8 msg_type `it's` ,	} , /// triple
 }
-packet metadata { @leftPad ( ' ' ) stringy
-@lengthOf( _x )
-    , repeat	u8
-int
-    `{ , }` ,
-@leftPad //	t
-('0' ) repeat char msg_type `it's`,
-} MetaData x_y_z { // trailing space 
-}")).
-Eval vm_compute in ("<<<M350>>>" ++ check (runes_of_ascii "MetaData Pad
-{ i64 Packet `{ , }`
-    , // `tick` ""quote"" 'q'
-repeatCount  trueish // packet A { u8 x, }
-`say ""hi""`	, f32 pack`// not a comment` ,// `tick` ""quote"" 'q'
-u32
-calculatedFrom ,char //	t
-zchar
-,}
-")).
-Eval vm_compute in ("<<<M1295>>>" ++ check (runes_of_ascii "packet
-    A{ 
-u8 a,
-}packet
-B
-
-{u16
-	b
-
-    , } root
-packet 
-P
-
-    {  u8
-    K1
-, u8
-
-K2 
-,match K1
-	as	M1
+packet float { }")).
+Eval vm_compute in ("<<<M1192>>>" ++ check (runes_of_ascii "// top
+MetaData
+    // c0
+uint8x
+    // c1
 {
-1
-    :
-
-A,
-
-    } ,	match
-
-K2
-as M2  {
-1:B ,
-    }
-    ,}
-")).
-Eval vm_compute in ("<<<M1256>>>" ++ check (runes_of_ascii "// top
-root // c0
-packet P // c2
-{ // c3
-hdr
+    // c2
+char[]
+    // c3
+f32a
     // c4
-{
+`// not a comment`
     // c5
-u8 // c6
-a // c7a
-  // c7b
 ,
+    // c6
+float32
+    // c7
+roots
     // c8
-} , // c10
-u8 // c11
-x // c12a
-  // c12b
-, }
+,
+    // c9
+char[
+    // c10
+7
+    // c11
+]
+    // c12
+u8x
+    // c13
+,
     // c14
+zchar[
+    // c15
+10
+    // c16
+]
+    // c17
+f32a
+    // c18
+,
+    // c19
+u64
+    // c20
+pack
+    // c21
+,
+    // c22
+u16
+    // c23
+pack
+    // c24
+,
+    // c25
+}
+    // c26
 ")).
-Eval vm_compute in ("<<<M441>>>" ++ check (runes_of_ascii "packet uint8x
+Eval vm_compute in ("<<<M292>>>" ++ check (runes_of_ascii "packet/// triple
+matchKey { float32 float,@calculatedFrom(""a\\""// " ++ [27880; 37322]%N ++ runes_of_ascii "
+) @rightPad
+( '\x00' )i16 tag  @calculatedFrom(""abc"" ) ,
+repeat zchar[255
+] pack
+    , @lengthOf( Z9_ ) tag , } // trailing space 
+root
+packet rootA { repeat metadata { Logon , }, @tag( 10)
+@lengthOf( A )
+@tag( 007)
+u32
+    options1, match float as u {0123456789 : u8x ,} ,	}// " ++ [27880; 37322]%N ++ runes_of_ascii "
+root packet lengthOf { }
+")).
+Eval vm_compute in ("<<<M178>>>" ++ check (runes_of_ascii "packet // c
+As
+{@tag( 42
+    )
+    repeat Logon	uint8x
+// " ++ [128512]%N ++ runes_of_ascii " emoji
+//
+``, repeat int32
+    x_y_z ,char[7 // trailing space 
+]	pack , repeat string crc
+/// triple
+// c
+`// not a comment`
+, @calculatedFrom(
+    ""`tick`""
+    ) @tag( 1 )match
+    // @lengthOf(
+    chars as
+MetaDataX { 4294967296 : // @lengthOf(
+T ,
+} /// triple
+,
+}
+")).
+Eval vm_compute in ("<<<M205>>>" ++ check (runes_of_ascii "  root packet
+    chars{ string T `say ""hi""`
+, @tag(
+    1  ) body { repeat o { f64 Packet @calculatedFrom( ""a\\"") ,  } , }	,
+} packet pack
+// @lengthOf(
+// a // b
+{
+@tag( 4294967296 // `tick` ""quote"" 'q'
+) repeat char[]
+    Logon
+    // trailing space 
+    , repeat
+BodyLength len ,
+    // c
+    }")).
+Eval vm_compute in ("<<<M1322>>>" ++ check (runes_of_ascii "packet
+
+    P1
+    { u8
+
+    a 
+,
+} packet
+
+P2  { 
+P1
+	,
+    }  packet	P3 {	P2  ,
+
+P1	,}
+	packet  P4
+
+{ 
+repeat  P3
+	,
+
+P2,
+
+}root
+
+    packet
+    P5 {
+P4,
+
+    P3
+
+,
+
+    P1 , u8	K
+    ,match
+    K as Body {
+	4:P4 ,
+3
+
+: P3 ,
+	2 : P2 , 1
+: P1	,
+}	,  }")).
+Eval vm_compute in ("<<<M190>>>" ++ check (runes_of_ascii "packet // @lengthOf(
+f32a
+    {	@rightPad (
+    '0' ) @lengthOf( BodyLength ) uint8 Foo ``,
+    //x
+    char[]
+    options1 @calculatedFrom(
+    ""it's"" ) ,@tag(255/// triple
+) uint64
+    Header @calculatedFrom( ""abc""
+) `
+`
+,}
+
+")).
+Eval vm_compute in ("<<<M1621>>>" ++ check (runes_of_ascii "
+
+  options
+{As
+=	true
+    MetaDataX
+    =
+    true
+}
+
+packet A
+{
+repeat
+	calculatedFrom
+`say ""hi""` ,
+
+    }	MetaData crc
+
+    {
+
+u
+crc , uint32
+
+body
+
+    ,
+    i16  stringy
+
+    `u8 x,`,}
+")).
+Eval vm_compute in ("<<<M9>>>" ++ check (runes_of_ascii "
+options {body = """ ++ [28040; 24687]%N ++ runes_of_ascii """ }	packet matchKey
+{string_
+// packet A { u8 x, }
+// a // b
+@lengthOf( f32a) ,	int32 int @lengthOf(u128 )	, tag x_y_z ,}packet BodyLength /// triple
+{ }")).
+Eval vm_compute in ("<<<M145>>>" ++ check (runes_of_ascii "MetaData //x
+Packet
+/// triple
+// " ++ [27880; 37322]%N ++ runes_of_ascii "
+{	u
+/// triple
+// c
+lengthOf `say ""hi""`
+    , } MetaData metadata {
+    crc chars `crlf
+line` , asx f32a /// triple
+,
+}
+
+")).
+Eval vm_compute in ("<<<M478>>>" ++ check (runes_of_ascii "packet uint8x
 { match pack
     as msg_type	{
-    0123456789 :	float float
+    0123456789 :	float
+}
+,
+} packet //	t
+a1
+    { char[ options {packetx
+    = '\x00'	; u128= ""a	b""  ; }
+")).
+Eval vm_compute in ("<<<M506>>>" ++ check (runes_of_ascii "packet uint8x
+{ match pack
+    as msg_type	{
+    0123456789 :	float
 }
 ,
 } packet //	t
 a1
     { } options {packetx
-    = '\x00'	; u128= ""a	b""  ; }
+    = '\x00'	; ; u128= ""a	b""  ; }
 ")).
-Eval vm_compute in ("<<<M403>>>" ++ check (runes_of_ascii "packet uint8x
-007 match pack
-    as msg_type	{
+Eval vm_compute in ("<<<M422>>>" ++ check (runes_of_ascii "packet uint8x
+{ match pack
+    as {	msg_type
     0123456789 :	float
 }
 ,
@@ -912,10 +939,10 @@ a1
     { } options {packetx
     = '\x00'	; u128= ""a	b""  ; }
 ")).
-Eval vm_compute in ("<<<M550>>>" ++ check (runes_of_ascii "packet uint8x
+Eval vm_compute in ("<<<M435>>>" ++ check (runes_of_ascii "packet uint8x
 { match pack
     as msg_type	{
-    0123456789 :	caf" ++ [233]%N ++ runes_of_ascii "_1
+    0123456789 	float
 }
 ,
 } packet //	t
@@ -923,236 +950,245 @@ a1
     { } options {packetx
     = '\x00'	; u128= ""a	b""  ; }
 ")).
-Eval vm_compute in ("<<<M512>>>" ++ check (runes_of_ascii "packet uint8x
-{ match pack
-    as msg_type	{
-    0123456789 :	float
+Eval vm_compute in ("<<<M1886>>>" ++ check (runes_of_ascii "root packet packetx {
+    char[1] chars @calculatedFrom(""packet"") `say ""hi""`,
 }
-,
-} packet //	t
-a1
-    { } options {packetx
-    = '\x00'	; =u128 ""a	b""  ; }
-")).
-Eval vm_compute in ("<<<M503>>>" ++ check (runes_of_ascii "packet uint8x
-{ match pack
-    as msg_type	{
-    0123456789 :	float
-}
-,
-} packet //	t
-a1
-    { } options {packetx
-    = char	; u128= ""a	b""  ; }
-")).
-Eval vm_compute in ("<<<M691>>>" ++ check (runes_of_ascii "// @lengthOf(
-packet i8i8 { u128 o , }
-options f64 MetaDataX = true;
-    BodyLength =""packet"" x_y_z= 007
-crc //x
-= ""abc"" ;
-    msg_type =
-i16 }")).
-Eval vm_compute in ("<<<M715>>>" ++ check (runes_of_ascii "// @lengthOf(
-packet i8i8 { u128 o , options
-} { MetaDataX = true;
-    BodyLength =""packet"" x_y_z= 007
-crc //x
-= ""abc"" ;
-    msg_type =
-i16 }")).
-Eval vm_compute in ("<<<M650>>>" ++ check (runes_of_ascii "// @lengthOf(
+
+options {
+    asx = 65535
+    u = float64
+    repeatCount = ""\" ++ [233]%N ++ runes_of_ascii """
+}")).
+Eval vm_compute in ("<<<M657>>>" ++ check (runes_of_ascii "// @lengthOf(
 packet i8i8 { u128 o , }
 options { MetaDataX = true;
     BodyLength =""packet"" x_y_z= 007
-crc //x
-=  ;
+?crc //x
+= ""abc"" ;
     msg_type =
 i16 }")).
-Eval vm_compute in ("<<<M1918>>>" ++ check (runes_of_ascii "MetaData
-leftPad
-{	chars
-MetaDataX, }	packet 
-repeatCount{ char[
+Eval vm_compute in ("<<<M689>>>" ++ check (runes_of_ascii "// @lengthOf(
+packet i8i8 { u128 o , }
+options { MetaDataX  true;
+    BodyLength =""packet"" x_y_z= 007
+crc //x
+= ""abc"" ;
+    msg_type =
+i16 }")).
+Eval vm_compute in ("<<<M697>>>" ++ check (runes_of_ascii "// @lengthOf(
+packet i8i8 { u128 o , }
+, { MetaDataX = true;
+    BodyLength =""packet"" x_y_z= 007
+crc //x
+= ""abc"" ;
+    msg_type =
+i16 }")).
+Eval vm_compute in ("<<<M1296>>>" ++ check (runes_of_ascii "packet A {
+    u8 a,
+}
+packet B {
+    u16 b,
+}
+root packet P {
+    u8 K,
+    match K as M {
+        1 : A,
+        1 : B,
+    },
+}
+")).
+Eval vm_compute in ("<<<M1261>>>" ++ check (runes_of_ascii "packet B {
+    u8 a,
+}
+root packet P {
+    u8 K,
+    u64 L @lengthOf(Body),
+    match K as Body {
+        1 : B,
+    },
+}
+")).
+Eval vm_compute in ("<<<M1151>>>" ++ check (runes_of_ascii "MetaData leftPad { chars MetaDataX // c
+, } packet repeatCount { char[ 255 ] uint8x `" ++ [233]%N ++ runes_of_ascii "` , } MetaData pack { As Foo , }")).
+Eval vm_compute in ("<<<M1183>>>" ++ check (runes_of_ascii "MetaData leftPad { chars MetaDataX , } packet repeatCount { char[ 255 ] uint8x `" ++ [233]%N ++ runes_of_ascii "` , } MetaData pack { As // c
+Foo , }")).
+Eval vm_compute in ("<<<M239>>>" ++ check (runes_of_ascii "options { lengthOf =3
+trueish
+// packet A { u8 x, }
+// trailing space 
+=
+    true
+; calculatedFrom =
+007;} 	 ")).
+Eval vm_compute in ("<<<M1269>>>" ++ check (runes_of_ascii "  packet	B
+{
+u8 a , 
+string	s
+	,
+    }
+    root
+	packet P
 
-    255 ] uint8x	`" ++ [233]%N ++ runes_of_ascii "`
-,  }
-// c
-	  MetaData
-pack
-{ As
+{ u16
 
-Foo 
+L @lengthOf( B ), B
+    , 
+u8  t ,
+}
+")).
+Eval vm_compute in ("<<<M1604>>>" ++ check (runes_of_ascii "
+
+  packet
+A { 
+match k
+
+as
+n{
+	[ ""a"", ""bb"" ,
+	""c c""
+
+,
+""d""
+	, ""e""
+
+    ,
+	""f"" 
+] :B	2	:  C
+
+}
 , }
 ")).
-Eval vm_compute in ("<<<M1840>>>" ++ check (runes_of_ascii "MetaData leftPad {
-    chars MetaDataX,
-}
-
-packet repeatCount {
-    char[255] uint8x `" ++ [233]%N ++ runes_of_ascii "`,
-}
-
-MetaData pack {
-    As Foo,// c
-}")).
-Eval vm_compute in ("<<<M1145>>>" ++ check (runes_of_ascii "MetaData leftPad // c
-{ chars MetaDataX , } packet repeatCount { char[ 255 ] uint8x `" ++ [233]%N ++ runes_of_ascii "` , } MetaData pack { As Foo , }")).
-Eval vm_compute in ("<<<M1177>>>" ++ check (runes_of_ascii "MetaData leftPad { chars MetaDataX , } packet repeatCount { char[ 255 ] uint8x `" ++ [233]%N ++ runes_of_ascii "` , } MetaData // c
-pack { As Foo , }")).
-Eval vm_compute in ("<<<M1569>>>" ++ check (runes_of_ascii "MetaData zchar {
-    uint8 _x `doc`,
-    float64 metadata `doc`,
-    zchar[42] x_y_z,
-    zchar[3] Logon `{ , }`,
-}")).
-Eval vm_compute in ("<<<M880>>>" ++ check (runes_of_ascii "packet A {
-  match k as n {
-    [""a"", ""bb"", ""c c"", ""d"", ""e"", ""f"", ""g"", ""h"", ""i"", ""j""] : B,
-    2 : C
-  },
-}")).
-Eval vm_compute in ("<<<M683>>>" ++ check (runes_of_ascii "// @lengthOf(
-packet i8i8 { u128 o , }
-options { MetaDataX = true;
-    BodyLength =""packet"" x_y_z= 007")).
-Eval vm_compute in ("<<<M1702>>>" ++ check (runes_of_ascii "root packet
-SimpleMessage
-
-{uint16 
-MsgType
-
-`" ++ [28040; 24687; 31867; 22411]%N ++ runes_of_ascii "`,  string
-
-JsonBody
-`Json" ++ [23383; 31526; 20018; 28040; 24687; 20307]%N ++ runes_of_ascii "` ,
-
-    }
-")).
-Eval vm_compute in ("<<<M886>>>" ++ check (runes_of_ascii "packet A {
-  match k as n {
-    [1, 22, ""c c"", 4, 5, ""f"", 7, 8, ""i"", 10] : B,
-    2 : C
-  },
-}")).
-Eval vm_compute in ("<<<M623>>>" ++ check (runes_of_ascii "
-packet
+Eval vm_compute in ("<<<M554>>>" ++ check (runes_of_ascii "
+packet packet
     asx {match u128 as lengthOf
 {
 //	t
 // `tick` ""quote"" 'q'
 255 : x ,
-    } ,	} }")).
-Eval vm_compute in ("<<<M594>>>" ++ check (runes_of_ascii "
-packet
-    asx {match u128 as lengthOf
-{
-//	t
-// `tick` ""quote"" 'q'
-: 255 x ,
     } ,	}")).
-Eval vm_compute in ("<<<M1086>>>" ++ check (runes_of_ascii "packet A { match k as n // a
- { // b
- 1 // c
- : // d
- B // e
- , // f
- } // g
- , // h
- }")).
-Eval vm_compute in ("<<<M1634>>>" ++ check (runes_of_ascii "MetaData repeatCount {
-    char[42] MetaDataX,
-    // @lengthOf(
-    zchar[0] asx,
-}")).
-Eval vm_compute in ("<<<M834>>>" ++ check (runes_of_ascii "packet A {
+Eval vm_compute in ("<<<M887>>>" ++ check (runes_of_ascii "packet A {
   match k as n {
-    [1, 22, ""c c"", 4, 5, ""f""] : B,
+    [1, 22, ""c c"", 4, 5, ""f"", 7, 8, ""i"", 10] : B
     2 : C
   },
 }")).
-Eval vm_compute in ("<<<M606>>>" ++ check (runes_of_ascii "
-packet
-    asx {match u128 as lengthOf
-{
-//	t
-// `tick` ""quote"" 'q'
-255 :")).
-Eval vm_compute in ("<<<M808>>>" ++ check (runes_of_ascii "packet A {
+Eval vm_compute in ("<<<M388>>>" ++ check (runes_of_ascii "root packet SimpleMessage {
+    uint16 MsgType `" ++ [28040; 24687; 31867; 22411]%N ++ runes_of_ascii "`,
+    string JsonBody `Json" ++ [23383; 31526; 20018; 28040; 24687; 20307]%N ++ runes_of_ascii "`,
+}")).
+Eval vm_compute in ("<<<M859>>>" ++ check (runes_of_ascii "packet A {
   match k as n {
-    [1, 22, ""c c"", 4] : B,
+    [""a"", 22, ""c c"", 4, ""e"", 66, ""g"", 8] : B
     2 : C
   },
 }")).
-Eval vm_compute in ("<<<M1595>>>" ++ check (runes_of_ascii "MetaData x {
-    x Packet,
-    i32 lengthOf,// `tick` ""quote"" 'q'
+Eval vm_compute in ("<<<M846>>>" ++ check (runes_of_ascii "packet A {
+  match k as n {
+    [""a"", 22, ""c c"", 4, ""e"", 66, ""g""] : B
+    2 : C
+  },
 }")).
-Eval vm_compute in ("<<<M2>>>" ++ check (runes_of_ascii "root
-// trailing space 
-// " ++ [27880; 37322]%N ++ runes_of_ascii "
-packet
-u{  } // trailing space ")).
-Eval vm_compute in ("<<<M1413>>>" ++ check (runes_of_ascii "root packet P {
-    repeat string ss,
-    repeat u16 ns,
+Eval vm_compute in ("<<<M1414>>>" ++ check (runes_of_ascii "packet A {
+    match k as n {
+        [""a"", 22, ""c c""] : B,
+        2 : C,
+    },
 }")).
-Eval vm_compute in ("<<<M1198>>>" ++ check (runes_of_ascii "
-// c
-packet body { i32 f32a `{ , }` , } options { }")).
-Eval vm_compute in ("<<<M1079>>>" ++ check (runes_of_ascii "packet A { u8 x, } // a
-// b
-packet B {} // c
-// d")).
-Eval vm_compute in ("<<<M284>>>" ++ check (runes_of_ascii "
-options{ trueish=
-'0' //	t
-;a1 = u64
-; }")).
-Eval vm_compute in ("<<<M1766>>>" ++ check (runes_of_ascii "packet MetaDataX {
-    i16 u128 `" ++ [233]%N ++ runes_of_ascii "`,//x
+Eval vm_compute in ("<<<M1456>>>" ++ check (runes_of_ascii "  packet
+
+A
+{ @tag(
+	1
+
+) // a
+  @leftPad
+(
+'0'	)// b
+  char[
+
+4	]
+x
+,}
+")).
+Eval vm_compute in ("<<<M811>>>" ++ check (runes_of_ascii "packet A {
+  match k as n {
+    [""a"", ""bb"", 007, ""d""] : B
+    2 : C
+  },
 }")).
+Eval vm_compute in ("<<<M454>>>" ++ check (runes_of_ascii "packet uint8x
+{ match pack
+    as msg_type	{
+    0123456789 :	float
+}")).
+Eval vm_compute in ("<<<M1098>>>" ++ check (runes_of_ascii "packet A {
+    match k as n {
+        1 : B,
+        // c
+    },
+}")).
+Eval vm_compute in ("<<<M778>>>" ++ check (runes_of_ascii "packet A {
+  match k as n {
+    [1, 22] : B,
+    2 : C
+  },
+}")).
+Eval vm_compute in ("<<<M930>>>" ++ check (runes_of_ascii "packet A {
+    B b `
+`,
+    B `
+`,
+    repeat B bs `
+`,
+}")).
+Eval vm_compute in ("<<<M159>>>" ++ check (runes_of_ascii "root packet x  { roots @calculatedFrom(""a\""b"" ) , }")).
+Eval vm_compute in ("<<<M1520>>>" ++ check (runes_of_ascii "packet body {
+    i32 f32a `{ , }`,
+}
+
+options {
+}")).
+Eval vm_compute in ("<<<M921>>>" ++ check (runes_of_ascii "MetaData M {
+    u8 x `a
+b`,
+    T t `a
+b`,
+}")).
+Eval vm_compute in ("<<<M1894>>>" ++ check (runes_of_ascii "  root	packet
+
+A{
+
+    u8
+x 
+`
+x`	,
+} ")).
 Eval vm_compute in ("<<<M1092>>>" ++ check (runes_of_ascii "root // a
  packet // b
  A // c
  { }")).
-Eval vm_compute in ("<<<M1808>>>" ++ check (runes_of_ascii "
+Eval vm_compute in ("<<<M738>>>" ++ check (runes_of_ascii "\B1ss""~3@|Nr!9$[0mx>ti>t+Fp_cN&")).
+Eval vm_compute in ("<<<M1524>>>" ++ check (runes_of_ascii "root
 
-  packet
-A
-
-{
-} 
-
-    // c" ++ [8202]%N ++ runes_of_ascii "
- 
-")).
-Eval vm_compute in ("<<<M1058>>>" ++ check (runes_of_ascii "packet A {
- u8 x `d" ++ [6158]%N ++ runes_of_ascii "`, // c" ++ [6158]%N ++ runes_of_ascii "
-}")).
-Eval vm_compute in ("<<<M1868>>>" ++ check (runes_of_ascii "
-packet
-
-    x  {// c
-	}")).
-Eval vm_compute in ("<<<M238>>>" ++ check (runes_of_ascii "root packet chars
-{}
-")).
-Eval vm_compute in ("<<<M162>>>" ++ check (runes_of_ascii "
-packet f32a  { }
-")).
-Eval vm_compute in ("<<<M1001>>>" ++ check (runes_of_ascii "packet A {
+    packet
+chars {
 }
-// c" ++ [8192]%N)).
-Eval vm_compute in ("<<<M571>>>" ++ check (runes_of_ascii "
-packet
-    asx {")).
-Eval vm_compute in ("<<<M409>>>" ++ check (runes_of_ascii "packet uint8x
-{")).
-Eval vm_compute in ("<<<M1911>>>" ++ check (runes_of_ascii "
-
-  // c" ++ [8233]%N ++ runes_of_ascii "
 ")).
-Eval vm_compute in ("<<<M293>>>" ++ check (runes_of_ascii "  
+Eval vm_compute in ("<<<M338>>>" ++ check (runes_of_ascii "root packet
+msg_type { }
+")).
+Eval vm_compute in ("<<<M747>>>" ++ check (runes_of_ascii "true int16 u16 { f32a")).
+Eval vm_compute in ("<<<M1061>>>" ++ check (runes_of_ascii "packet A {
+}
+// c x")).
+Eval vm_compute in ("<<<M1012>>>" ++ check (runes_of_ascii "// c" ++ [8232]%N ++ runes_of_ascii "
+packet A {
+}")).
+Eval vm_compute in ("<<<M984>>>" ++ check (runes_of_ascii "packet A {
+}// c" ++ [160]%N)).
+Eval vm_compute in ("<<<M1682>>>" ++ check (runes_of_ascii "packet x {
+}// c")).
+Eval vm_compute in ("<<<M1715>>>" ++ check (runes_of_ascii "/// triple")).
+Eval vm_compute in ("<<<M157>>>" ++ check (runes_of_ascii "//
 
 ")).
